@@ -15,6 +15,8 @@ var families = map[string]func(dir string, seed int64, tier string){
 	"codec": famCodec,
 	"compare": famCompare,
 	"hash": famHash,
+	"streams": famStreams,
+	"typed": famTyped,
 }
 
 func main() {
